@@ -78,6 +78,15 @@ CHECKS = {
         "note": "tolerance 1e-8 cycles with 30*F0*span <= 4e6 cycles; TMIDs in a leap-second-free range; astropy's parsing of the TMID string trusted",
         "technique": "property-based testing: grammar-based text generation + exact-rational oracle; repeatability check for hidden state",
     },
+    "C12": {
+        "text": "Generated signals of every class (N 1..128, f4/f8/c8/c16, with/without start time, rates mHz..GHz in every unit) and snippet requests in "
+                "each documented form (sample count int/float, duration in s..min, k*dt, absolute Time), whole and fractional, n 0..N incl. requests "
+                "ending at the last sample: length, start_time = start + t/rate, bit-identity with z[t:t+n] for whole samples, extended-precision DFT "
+                "interpolation for fractional t; every out-of-range/negative/Time-without-start request must raise ValueError. Exploration.",
+        "ref": "DESIGN.md section 4 C12",
+        "note": "duration/Time requests are converted to samples with the same public astropy arithmetic; requests within 4x the snapping band of its edge are skipped",
+        "technique": "property-based testing: Hypothesis vs slice identity and longdouble DFT interpolation oracle",
+    },
     "C13": {
         "text": "Generated dual-polarisation signals (both bases, c8/c16, nchan 1..5, 0..2 trailing dims, NumPy and Dask, noise / pure X,Y,L,R / zeros / "
                 "mixed scales, amplitudes 1e-10..1e8) checked against the docstring formulas written out independently: conversion values, per-sample "
